@@ -138,11 +138,30 @@ def check_code(label: str, code, acc: Acc, source=None):
         report(f"build-raises/{et}", f"ByteFlow.from_bytecode raised {et}: {e} at {site}", site=f"{PYTAG} {site}")
         return
     compare(code, flow.scfg, report)
+    if seen:
+        return
+    # history: building again after the first result was transformed in place must give the same graph
+    first = {n: (type(b).__name__, b.begin, b.end, tuple(b._jump_targets)) for n, b in flow.scfg.graph.items()}
+    try:
+        flow.scfg.join_returns()
+        flow.scfg.restructure_loop()
+    except Exception:  # noqa: BLE001  (C02's business)
+        pass
+    try:
+        again = ByteFlow.from_bytecode(code)
+        second = {n: (type(b).__name__, getattr(b, "begin", None), getattr(b, "end", None), tuple(b._jump_targets))
+                  for n, b in again.scfg.graph.items()}
+        if second != first or again.scfg is flow.scfg:
+            report("rebuild-differs", "building the graph of the same function again, after the first result was restructured in place, "
+                                      "does not give the bytecode's control flow any more")
+    except Exception as e:  # noqa: BLE001
+        et, site = exc_fingerprint(e)
+        report(f"rebuild-raises/{et}", f"second ByteFlow.from_bytecode raised {et} at {site}", site=f"{PYTAG} {site}")
     acc.states += len(flow.scfg.graph)
     acc.transitions += sum(len(b._jump_targets) for b in flow.scfg.graph.values())
     if len(acc.samples) < 3 and len(flow.scfg.graph) >= 4 and source is not None:
         acc.samples.append({"label": label, "python": PYTAG, "source": source,
-                            "blocks": {n: [b.begin, b.end, list(b._jump_targets)] for n, b in flow.scfg.graph.items()}})
+                            "blocks": {n: [v[1], v[2], list(v[3])] for n, v in first.items()}})
 
 
 def _work(args):
